@@ -26,7 +26,7 @@ def judge(prog: Any, ref: Any, run: dict[str, Any], info: dict[str, Any]) -> lis
     else:
         for q in check_quiescent(run["fs"]):
             problems.append((q["cls"], q["msg"], q["sig"].split(":", 1)[1]))
-    return one_violation("C05", problems, run["h"])
+    return one_violation("C05", problems, run["h"], prog=prog)
 
 
 CHECK = DCheck("C05", PROFILE, judge, need_ref=False)
